@@ -5,6 +5,8 @@ import Proofs.Lemmas.CtlIso
 import Proofs.Lemmas.CtlWitness
 import Proofs.Lemmas.CtlShape
 import Generated.C02Shapes
+import Proofs.Lemmas.CtlScan
+import Generated.C02BodyScans
 /-!
 # C02 — control flow and function calls behave as the reference semantics prescribe
 
@@ -507,5 +509,94 @@ theorem C02_tie_static_store_counterexample :
 example : ∀ L ∈ Generated.C02.forLoops, forOK L = true →
     tieObs (loopBy L [] 9 (.varIntLe 0 2 (.bin .le (.var 0) (.lit (.int 2)))) (.cons (.stmtIncr 0) .nil)
       (.cons (.echo (.cons (.var 0) .nil)) .nil) .null (tieSt [.int 0])) = some ([.int 3], ["0", "1", "2"]) := by decide
+
+/-! ### pre-scans of a function body (round 7: seed `C02-static-binding-skipped-by-scan`)
+
+A flag computed when the function node is built, by a scan that opens the statement-list fields `o` only, stands
+for "the body holds the construct". Theorems over every body (any nesting), every set of opened fields. -/
+section BodyScan
+open Model.CtlScan Proofs.CtlScan
+
+/-- a scan never reports a construct that is not there -/
+theorem C02_scan_sound (o : List String) (body : Blk) : scanBlk o body = true → hasBlk body = true :=
+  scanBlk_sound o body
+
+/-- a scan that opens every statement-list field occurring in the body is exact -/
+theorem C02_scan_complete (o : List String) (body : Blk) (h : ∀ f ∈ fieldsBlk body, f ∈ o) :
+    scanBlk o body = hasBlk body := scanBlk_complete o body h
+
+/-- … and that is the only way: a scan is exact on all bodies built from the containers `cs` iff it opens all of `cs` -/
+theorem C02_scan_exact_iff (o cs : List String) :
+    (∀ body, (∀ f ∈ fieldsBlk body, f ∈ cs) → scanBlk o body = hasBlk body) ↔ ∀ c ∈ cs, c ∈ o := by
+  constructor
+  · intro h c hc
+    refine Classical.byContradiction fun hn => ?_
+    have := h (missBody c) (by simp [missBody_fields, hc])
+    rw [missBody_scan o c hn, missBody_has] at this
+    exact Bool.noConfusion this
+  · intro h body hb
+    exact scanBlk_complete o body fun f hf => h f (hb f hf)
+
+/-- `FunctionStatement.Call` with the store bound under the flag of a scan = the store always bound
+(`Model.Ctl.bindStatics`, the rule `C02_refines_partial` is about), when the scan opens every field of the body.
+`statics` are the declarations the body executes; `hdecl`: a body without the construct declares none. -/
+theorem C02_static_flag_bind (o : List String) (body : Blk) (g : FName) (statics : List (Nat × Val)) (s : MSt)
+    (hopen : ∀ f ∈ fieldsBlk body, f ∈ o) (hdecl : hasBlk body = false → statics = []) :
+    bindStaticsIf (scanBlk o body) g statics s = bindStatics g statics s := by
+  rw [scanBlk_complete o body hopen]
+  cases hb : hasBlk body
+  · simp [bindStaticsIf, hdecl hb, bindStatics, localStatics]
+  · simp [bindStaticsIf]
+
+/-- the seeded change, for EVERY field a scan leaves out: a `static` alone inside that field is a fresh local —
+no cell is created, the slot is not bound (so the next call starts from the initialiser again) -/
+theorem C02_static_flag_unbound_counterexample (o : List String) (f : String) (hf : f ∉ o) :
+    ∃ body, fieldsBlk body = [f] ∧ hasBlk body = true ∧
+      ∀ g : FName, ∃ s : MSt,
+        (bindStaticsIf (scanBlk o body) g [(0, Val.int 0)] s).statics = [] ∧
+        (bindStaticsIf (scanBlk o body) g [(0, Val.int 0)] s).fr.bound = [] ∧
+        (bindStatics g [(0, Val.int 0)] s).statics = [((g, 0), Val.int 0)] ∧
+        (bindStatics g [(0, Val.int 0)] s).fr.bound = [0] := by
+  refine ⟨missBody f, missBody_fields f, missBody_has f, fun g => ?_⟩
+  refine ⟨{ fr := { slots := [.null], bound := [], fn := some g }, statics := [], out := [] }, ?_⟩
+  rw [missBody_scan o f hf]
+  simp [bindStaticsIf, localStatics, localStatic, bindStatics, bindStatic, aget, aset]
+
+/-- obligation over the regenerated facts: every body scan of node/ opens every statement-list field of node/ that
+can occur in a function body (minus the pairs with a known finding) -/
+theorem C02_tie_scan_opens_every_container :
+    Generated.C02.bodyScans.all (scanFnOK Generated.C02.stmtContainers) = true := by
+  first | decide | fail "obligation C02_tie_scan_opens_every_container no longer holds: a pre-scan of the function body in node/ (containsYield, containsStatic, … — a recursive bool walk over statements whose answer decides how the body is run) does not open a node field that holds statements: a construct placed there is silently treated as absent — compare Generated.C02.bodyScans with Generated.C02.stmtContainers"
+
+/-- the regenerated scans are exact on every body built from the containers they have to open -/
+theorem C02_tie_body_scans_generated :
+    ∀ S ∈ Generated.C02.bodyScans, ∀ body,
+      (∀ f ∈ fieldsBlk body, f ∈ mustOpen Generated.C02.stmtContainers S.name) → scanBlk S.opened body = hasBlk body := by
+  intro S hS body hb
+  have hall := List.all_eq_true.mp C02_tie_scan_opens_every_container S hS
+  refine scanBlk_complete S.opened body fun f hf => ?_
+  have := List.all_eq_true.mp hall f (hb f hf)
+  simpa using this
+
+/-- the seeded scan as a table: it opens what `containsYield` opens; the obligation refuses it, and the body it gets
+wrong is a `static` in a switch case -/
+def tieSeededScan : ScanFn :=
+  { name := "containsStatic", opened := ["DoWhileStatement.Body", "ElseIfBranch.ThenBranch", "ForStatement.Body",
+      "ForeachStatement.Body", "IfStatement.ElseBranch", "IfStatement.ThenBranch", "WhileStatement.Body"] }
+
+theorem C02_tie_scan_counterexample :
+    scanFnOK ["IfStatement.ThenBranch", "SwitchCase.Statements", "WhileStatement.Body"] tieSeededScan = false ∧
+    scanBlk tieSeededScan.opened (missBody "SwitchCase.Statements") = false ∧
+    hasBlk (missBody "SwitchCase.Statements") = true ∧
+    scanBlk tieSeededScan.opened (missBody "IfStatement.ThenBranch") = true := by decide
+
+-- non-vacuity: the pinned tree has a body scan, it has containers to open, and a three-deep body it is exact on
+example : Generated.C02.bodyScans ≠ [] ∧
+    (Generated.C02.bodyScans.all fun S => decide (2 ≤ (mustOpen Generated.C02.stmtContainers S.name).length)) = true := by decide
+example : scanBlk tieSeededScan.opened
+    (.cons .other (.cons (.node (.cons "IfStatement.ThenBranch" (.cons (.node (.cons "WhileStatement.Body"
+      (.cons (.node (.cons "ForStatement.Body" (.cons .hit .nil) .nil)) .nil) .nil)) .nil) .nil)) .nil)) = true := by decide
+
+end BodyScan
 
 end C02
